@@ -167,11 +167,6 @@ def make_scratch(tag, mounts=None, models=True, extra_lib=None):
         with open(sp, "a") as f:
             f.write('\n#[cfg(kani)]\n#[path = "%s"]\npub(crate) mod verif_kani;\n' % hp)
     libp = os.path.join(src, "src", "lib.rs")
-    with open(libp) as f:
-        libtxt = f.read()
-    with open(libp, "w") as f:
-        # (the HashMap stubs of the ProbOrdMinHash2 harnesses have to name std's allocator parameter)
-        f.write("#![cfg_attr(kani, feature(allocator_api))]\n" + libtxt)
     with open(libp, "a") as f:
         f.write('\n#[cfg(kani)]\n#[path = "%s"]\npub(crate) mod verif_common;\n' % os.path.join(HARNESS_DIR, "common.rs"))
         if extra_lib:
@@ -881,4 +876,11 @@ def main(argv):
 
 
 if __name__ == "__main__":
-    sys.exit(main(sys.argv[1:]))
+    try:
+        rc = main(sys.argv[1:])
+    except Exception:
+        import traceback
+        traceback.print_exc()
+        print("ERROR the check itself failed (see traceback): not decided")
+        rc = 2
+    sys.exit(rc)
